@@ -104,10 +104,16 @@ def merge(V):
     V.prove("merged lanelet keeps the outer relations", V.And(m.predecessor == first.predecessor, m.successor == second.successor))
 
 
-def _routes(V, n, forward):
+CHAIN_EDGES = [(1, 2), (2, 3), (3, 4), (4, 2), (3, 1), (1, 3)]
+
+
+def _routes(V, n, forward, chain=False):
     warnings.filterwarnings("ignore")
     ids = list(range(1, n + 1))
-    succ = {i: [j for j in ids if j != i and V.flag(f"edge.{i}.{j}")] for i in ids}
+    if chain:
+        succ = {i: [j for j in ids if (i, j) in CHAIN_EDGES and V.flag(f"edge.{i}.{j}")] for i in ids}
+    else:
+        succ = {i: [j for j in ids if j != i and V.flag(f"edge.{i}.{j}")] for i in ids}
     lens = {i: V.real(f"len{i}", 0.1, 100.0) for i in ids}
     rng = V.real("range", 0.0, 400.0)
     net = LaneletNetwork()
@@ -151,6 +157,18 @@ def _mk_routes(n, forward, tier):
     return ob
 
 
+def _mk_chain(forward):
+    @obligation("C20", f"routes.{'successors' if forward else 'predecessors'}.chain4", functions=F, max_paths={"quick": 6000, "thorough": 6000},
+                bounds="graphs on 4 lanelets whose edges are a symbolic subset of 1>2>3>4, 4>2, 3>1, 1>3 (long chains and "
+                       "loops); symbolic lengths and range limit")
+    def ob(V):
+        _routes(V, 4, forward, chain=True)
+
+    return ob
+
+
+_mk_chain(True)
+_mk_chain(False)
 _mk_routes(3, True, "quick")
 _mk_routes(3, False, "quick")
 _mk_routes(4, True, "thorough")
